@@ -38,7 +38,7 @@ var scratchFields = map[string]bool{"boolSlice": true, "uint64Slice": true, "int
 
 func checkC14(r *core.Result) {
 	r.Explanation = "Typestate rules for pooled lazy-decode results, decided on the source of lazyproto for all paths: R1 reset-before-put — the set of per-decode fields is computed (every FieldData/DecodeResult field stored by a function reachable from decode, the accessors or NestedResult(s)) and each is reset in close() before pool.Put, or carries a named exception whose side condition is itself checked (wt read only behind a len(data) guard; scratch slices re-sliced to [:0] before use; maxCap used for capacity bookkeeping only; skipClose set only on nested results); " +
-		"R2 every slice re-allocated on the close→trunc paths has length 0; R3 every nested result obtained in NestedResult(s) is marked skipClose and appended to the parent's closers; R4 scratch slices are cached on the field data only under the unsafe-mode guard; R5 release-once: pool.Put is guarded by a released flag set before Put and cleared after Get; R6 on the error path of decodeWithPool the result is closed and nil is returned."
+		"R2 every slice re-allocated on the close→trunc paths has length 0; R3 every nested result obtained in NestedResult(s) is marked skipClose and appended to the parent's closers; R4 scratch slices are cached on the field data only under the unsafe-mode guard; R5 release-once: pool.Put is guarded by a released flag set before Put and cleared after Get; R6 on the error path of decodeWithPool the result is closed and nil is returned; R7 who-may-call: close() is called only by Close() and by itself, in-package Close() only by decodeWithPool's error path."
 	r.RuleText = "obligations per per-decode field, per make on the close path, per nested-result site, per scratch-slice store, per Put/Get site"
 	r.Assumptions = []string{"sync.Pool is correct", "not decided: value-level isolation for all histories (follows from R1–R6)", "a result is closed by the goroutine that owns it"}
 	r.Trusted = []string{"go/types", "exception table in checks/c14.go (each exception's side condition is checked)"}
@@ -317,6 +317,48 @@ func checkC14(r *core.Result) {
 		}
 	}
 	r.Floor("scratch-slice stores", nScratch, 8)
+	// R7: who may release a result. close() is called only by Close() and by itself (through closers);
+	// in-package, Close() is called only on the error path of decodeWithPool (a result that was never
+	// handed out). Any other release of a result that may also sit in a parent's closers returns one
+	// object to the pool twice / while it is still reachable.
+	for _, f := range ix.decls {
+		ast.Inspect(f.Decl.Body, func(n ast.Node) bool {
+			c, ok := n.(*ast.CallExpr)
+			if !ok {
+				return true
+			}
+			fn := staticCallee(info, c)
+			if fn == nil || fn.Pkg() != lp.Types {
+				return true
+			}
+			sig := fn.Type().(*types.Signature)
+			if sig.Recv() == nil || namedOf(sig.Recv().Type()) != "DecodeResult" {
+				return true
+			}
+			switch fn.Name() {
+			case "close":
+				okCaller := f.Name == "(*DecodeResult).Close" || f.Name == "(*DecodeResult).close"
+				r.Ob("R7", f.Name+" :: calls close()", prog.Pos(c.Pos()), okCaller, "only Close() and close() itself may release a result: releasing it elsewhere while it can still be in a parent's closers puts the object into the pool although it is reachable (it is later reset / handed out twice)")
+			case "Close":
+				okCaller := f.Name == "(*Decoder).decodeWithPool"
+				r.Ob("R7", f.Name+" :: calls Close()", prog.Pos(c.Pos()), okCaller, "in-package Close() is reserved for the error path of decodeWithPool")
+			}
+			return true
+		})
+	}
+	// R8: results are returned to a pool only by close() (which resets them first)
+	for _, f := range ix.decls {
+		ast.Inspect(f.Decl.Body, func(n ast.Node) bool {
+			c, ok := n.(*ast.CallExpr)
+			if !ok {
+				return true
+			}
+			if fn := staticCallee(info, c); fn != nil && fn.Name() == "Put" && fn.Pkg() != nil && fn.Pkg().Path() == "sync" {
+				r.Ob("R8", f.Name+" :: pool.Put", prog.Pos(c.Pos()), f.Name == "(*DecodeResult).close", "a result is put into the pool outside close(): it is recycled without the reset that close() performs")
+			}
+			return true
+		})
+	}
 	// R6: error path of decodeWithPool
 	if f := ix.find("(*Decoder).decodeWithPool"); f != nil {
 		ok := false
